@@ -65,6 +65,51 @@ CHECKS = {
                      'equal the books.',
                 note='Amounts are integers/dyadic so level arithmetic is exact; item uids stay unique under shrinking.',
                 ref='4/C07'),
+    'C09': dict(engine='N', what='port workloads around the queue limit (bytes/packets/None), rates incl. 0, arrivals exactly at '
+                'transmission ends, PortMonitor sampling scripts, RED thresholds with scripted uniform draws',
+                text='Seeded exploration on the real Port/REDPort/PortMonitor between a harness injector and a recording sink: '
+                     'departure law k-th accepted = max(arrival, previous departure) + 8*size/rate (exact on GRID), drop iff rule '
+                     'from the G-ordered occupancy ledger, counters and byte_size after every tap, per-hop stamp, monitor samples, '
+                     'RED decision per controlled draw against the recomputed EWMA.',
+                note='Same-instant leniency in packet mode and for monitor samples at transmission boundaries; RED equality u==p lenient.',
+                ref='4/C09'),
+    'C10': dict(engine='N', what='wire workloads with scripted delay sequences (constant, decreasing, random, zero), overlapping '
+                'flights, scripted loss draws, Cable with two endpoints',
+                text='Seeded exploration on the real Wire/Cable: the n-th dequeued packet consumes the next loss draw and, if kept, the '
+                     'next delay draw d and must be delivered at max(a+d, previous delivery); lost packets never appear and delay nobody.',
+                note='Draws are attributed to a wire by the kernel process that made them; FLOAT mode compares with 1e-9.',
+                ref='4/C10'),
+    'C11': dict(engine='N', what='shaper workloads with bursts, idle gaps, oversize packets; GRID/FLOAT rates; peak rate; TRTB with/without PIR',
+                text='Seeded exploration on the real TokenBucket/TwoRateTokenBucket against the token-bucket recurrence written from '
+                     'the statement (exact on GRID), pairwise (rate,bucket) conformance over all departure pairs, peak spacing, colours '
+                     'and (CIR,CBS) conformance of green traffic.',
+                note='A colour is demanded only where both readings of "committed bucket after a yellow packet" agree.',
+                ref='4/C11'),
+    'C12': dict(engine='N', what='workloads over 1-5 configured flows for each of SP, WFQ, VC, DRR, RR, WRR: bursts, idle gaps, arrivals '
+                'exactly at transmission ends, many-to-one class maps, Monitor sampling scripts',
+                text='Seeded exploration on the six real schedulers: timing law departure k = max(previous departure, earliest unserved '
+                     'arrival) + 8*size/rate, per-flow FIFO, every packet out exactly once, per-flow counters against the G-ordered ledger '
+                     'after every tap, packet_in_service, Monitor samples.',
+                note='Workloads use configured flows only; boundaries of transmissions are lenient for in-service/monitor clauses.',
+                ref='4/C12'),
+    'C13': dict(engine='N', what='SP priority tables (ties allowed) and workloads keeping several priority levels backlogged',
+                text='Seeded exploration on the real SP: at every service start (departure - 8*size/rate) no packet of a strictly '
+                     'higher-priority flow that arrived at a strictly earlier instant may still be waiting.',
+                note='Packets arriving at the very instant of a service start never alarm (same-instant leniency).',
+                ref='4/C13'),
+    'C14': dict(engine='N', what='WFQ weight and VC vtick tables, static backlogs, staggered starts, idle periods resetting virtual time, '
+                'equal stamps, many-to-one class maps',
+                text='Seeded exploration on the real WFQ/VC: stamps are recomputed from the observed arrival/departure history by the '
+                     'recurrence of the statement; each service start must pick the smallest stamp among certainly-waiting packets; '
+                     'no run may raise; static backlogs obey the normalised-service bound.',
+                note='Stamps closer than 1e-9 relative are ties; FIFO on exact ties is demanded only for strictly earlier arrival instants.',
+                ref='4/C14'),
+    'C15': dict(engine='N', what='DRR/RR/WRR weight tables and flow lists, packets around the quantum, classes emptying and refilling mid-round',
+                text='Seeded exploration on the real DRR/RR/WRR: cyclic-visit and per-visit-allowance rules for RR/WRR, DRR credit bounds '
+                     'at every tap, the fairness bound over every both-backlogged period, and on coincidence-free workloads equality '
+                     'with an exact deficit-round-robin reference written from the statement.',
+                note='After an idle period the visiting position is unspecified: the reference restarts at the first backlogged class.',
+                ref='4/C15'),
 }
 
 ENGINES = [
